@@ -15,30 +15,30 @@ REASONS = [
     # (function regex, kind regex, reason[, guard regexes that must dominate the site[, operand-shape regex]])
     (r"^<crypto::keys::KeyIdentifier as std::str::FromStr>::from_str$", r".",
      "value.len() == 40 and is_ascii() are checked first: exactly 20 two-byte chunks, so pos < 20 and each chunk is valid UTF-8",
-     [r"^Ne\(str::len\(%1\), 40\) -> 0$", r"^str::is_ascii\(%1\) -> else$"]),
+     [r"^40 == str::len\(%1\)$", r"^str::is_ascii\(%1\)$"]),
     (r"^<repository::resources::chain::OwnedChain<T> as std::iter::FromIterator<T>>::from_iter$", r"call:unwrap",
      "inside `if let Some(..) = res.last()`: res is non-empty, last_mut() is Some",
-     [r"^discr\(Option::map\(slice::last\(.*\) -> 1$"]),
+     [r"^discr\(Option::map\(slice::last\(.*\) in \{1\}$"]),
     (r"^<repository::resources::ipres::Prefix as bcder::encode::PrimitiveContent>::write_encoded$", r"call:index",
      "len <= 128 (Prefix::new asserts it; R-WHO ipres::Prefix:writers), so len/8 <= 16 = to_bytes().len()", [], r"end: \(Div\("),
     (r"^<repository::resources::ipres::Prefix as bcder::encode::PrimitiveContent>::write_encoded$", r"call:index",
      "len <= 128 and len is not a multiple of 8 on this branch, so len <= 127 and len/8 + 1 <= 16 = to_bytes().len()",
-     [r"^num::is_multiple_of\(self\.len, 8\) -> 0$"], r"end: \(AddWithOverflow\("),
+     [r"^!num::is_multiple_of\(self\.len, 8\)$"], r"end: \(AddWithOverflow\("),
     (r"^<repository::x509::Serial as bcder::encode::PrimitiveContent>::(encoded_len|write_encoded)$", r".",
      "Serial::start() returns an index <= 19 < 20"),
     (r"^<repository::x509::Serial as std::convert::From<u(64|128)>>::from$", r"call:unwrap",
      "to_be_bytes() yields 8/16 octets: non-empty, at most 20, and the 20-octet array's first octet stays 0"),
     (r"^<repository::x509::Serial as std::str::FromStr>::from_str$", r"assert:Overflow:Sub",
-     "inside the match arm '0'..='9': ch as u8 >= b'0'", [r"^Le\(48, "]),
+     "inside the match arm '0'..='9': ch as u8 >= b'0'", [r"^48 <= "]),
     (r"^<repository::x509::Time as std::ops::(Add|Sub)<chrono::TimeDelta>>::(add|sub)$", r".",
      "operator on a caller-supplied duration: overflow of chrono's date range is the documented precondition of the std operator; "
      "not reachable from decoded data alone"),
     (r"^<resources::addr::Prefix as std::cmp::Ord>::cmp$", r"assert:Overflow:Shr",
      "min(len, len') is 128 only when both lengths are 128, which the equal-length early return excludes (C13 R-PANIC)",
-     [r"^Eq\(Prefix::len\(self\), Prefix::len\(%2\)\) -> 0$"]),
+     [r"^Prefix::len\(%2\) != Prefix::len\(self\)$"]),
     (r"^resources::addr::Prefix::covers$", r"assert:Overflow:Shr",
      "the shift by self.len() is reached only after the len() == 0 / 128 special cases were handled (C13 R-PANIC addr.rs:u128-shift-sites)",
-     [r"^Gt\(Prefix::len\(self\), Prefix::len\(%2\)\) -> 0$"]),
+     [r"^Prefix::len\(self\) <= Prefix::len\(%2\)$"]),
     (r"^<resources::addr::Prefix as std::convert::From<repository::roa::FriendlyRoaIpAddress>>::from$", r"call:expect",
      "FriendlyRoaIpAddress is built only by the ROA iterator from addresses whose length was checked against the family at "
      "capture time (RoaIpAddress::skip_opt_in) and whose host bits Prefix::new cleared (Addr::to_min)", [], None,
@@ -47,45 +47,45 @@ REASONS = [
      "operator with a caller-supplied addend; the only in-crate use (AsBlockIter) adds within min..=max of a decoded range"),
     (r"^<uri::Https as std::cmp::PartialEq>::eq$", r".",
      "`other` is sliced at self.path_idx only after path_idx equality was established; " + URI_INV % ("Https", "uri::Https", HS),
-     [r"^Eq\(self\.path_idx, %2\.path_idx\) -> else$"], r"^%2\.uri , .*self\.path_idx"),
+     [r"^%2\.path_idx == self\.path_idx$"], r"^%2\.uri , .*self\.path_idx"),
     (r"^<uri::Https as ", r".", URI_INV % ("Https", "uri::Https", HS)),
     (r"^uri::Https::parent$", r".",
-     URI_INV % ("Https", "uri::Https", HS) + "; the last byte is stripped only after ends_with('/')", [r"^str::ends_with\(Https::path\(self\), 47\) -> else$"],
+     URI_INV % ("Https", "uri::Https", HS) + "; the last byte is stripped only after ends_with('/')", [r"^str::ends_with\(Https::path\(self\), 47\)$"],
      r"str::len\(Https::path\(self\)\)"),
     (r"^uri::Https::", r".", URI_INV % ("Https", "uri::Https", HS) + "; an rfind index is < path.len()"),
     (r"^<uri::Rsync as std::cmp::PartialEq<T>>::eq$", r".",
      "`other` is sliced at self.module_start only after other.len() == self.bytes.len() was established; " + URI_INV % ("Rsync", "uri::Rsync", RS),
-     [r"^Ne\(Bytes::len\(self\.bytes\), slice::len\(%2\)\) -> 0$"], r"^%2 , "),
+     [r"^Bytes::len\(self\.bytes\) == slice::len\(%2\)$"], r"^%2 , "),
     (r"^<uri::Rsync as ", r".", URI_INV % ("Rsync", "uri::Rsync", RS)),
     (r"^uri::Rsync::from_bytes$", r"call:index",
      "bytes start with the 8-byte scheme (starts_with_ignore_case is checked before slicing)",
-     [r"^uri::starts_with_ignore_case\(%1, b'rsync://'\) -> else$"]),
+     [r"^uri::starts_with_ignore_case\(%1, b'rsync://'\)$"]),
     (r"^uri::Rsync::from_bytes$", r".",
      "authority and module are lengths of sub-slices of bytes, so 9 + authority + module + 1 <= bytes.len() + 2"),
     (r"^uri::Rsync::parent$", r".",
-     URI_INV % ("Rsync", "uri::Rsync", RS) + "; the last byte is stripped only after ends_with('/')", [r"^str::ends_with\(Rsync::path\(self\), 47\) -> else$"],
+     URI_INV % ("Rsync", "uri::Rsync", RS) + "; the last byte is stripped only after ends_with('/')", [r"^str::ends_with\(Rsync::path\(self\), 47\)$"],
      r"str::len\(Rsync::path\(self\)\)"),
     (r"^uri::Rsync::relative_to$", r".",
-     "other's last byte is stripped only after ends_with('/')", [r"^str::ends_with\(Rsync::path\(%2\), 47\) -> else$"], r"SubWithOverflow\(str::len\(Rsync::path\(%2\)\), 1\)"),
+     "other's last byte is stripped only after ends_with('/')", [r"^str::ends_with\(Rsync::path\(%2\), 47\)$"], r"SubWithOverflow\(str::len\(Rsync::path\(%2\)\), 1\)"),
     (r"^uri::Rsync::relative_to$", r".",
      "self.path() starts with other_path and is longer than it, so other_path.len() and other_path.len() + 1 are in bounds",
-     [r"^str::starts_with\(Rsync::path\(self\), \$\) -> else$", r"^Eq\(str::len\(Rsync::path\(self\)\), str::len\(\$\)\) -> 0$"]),
+     [r"^str::starts_with\(Rsync::path\(self\), \$\)$", r"^str::len\(\$\) != str::len\(Rsync::path\(self\)\)$"]),
     (r"^uri::Rsync::", r".", URI_INV % ("Rsync", "uri::Rsync", RS) + "; an rfind index is < path.len()"),
     (r"^ca::idexchange::\w+::to_xml_(string|vec)$|^ca::(provisioning|publication)::Message::to_xml_(bytes|string)$", r"call:unwrap",
      "writing XML into a Vec<u8> cannot fail (io::Write for Vec is infallible) and the writer emits only UTF-8 (escaped text, "
      "ASCII names; C11 R-TAB)"),
     (r"^ca::provisioning::IssuanceResponse::decode$", r"call:unwrap", "pop() follows the check issued_certs.len() == 1",
-     [r"^Ne\(Vec::len\(.*issued_certs\), 1\) -> 0$"]),
+     [r"^1 == Vec::len\(.*issued_certs\)$"]),
     (r"^ca::publication::(QueryPdu::decode_opt|Reply::decode)$", r"call:unwrap",
      "pdu_type is set by the element closure before it can return Ok; the unwrap is reached only when take_opt_element returned Some",
-     [r"^discr\(Try::branch\(Content::take_opt_element\(.* -> 1$"]),
+     [r"^discr\(Try::branch\(Content::take_opt_element\(.*↓Continue\.0\) in \{1\}$"]),
     (r"^ca::publication::Base64::to_bytes$", r"call:unwrap",
      "Base64 is created by from_content (encoding bytes); the XML decoder decodes the text first and re-encodes it. Only the serde "
      "Deserialize impl stores unchecked text, which is not a decoding entry point of this property"),
     (r"^crypto::digest::DigestAlgorithm::digest_file$", r"call:index", "Read::read returns n <= buf.len()"),
     (r"^crypto::keys::KeyIdentifier::from_content$", r".",
      "the non-contiguous path is entered only after octets.len() == 20 was checked: the segment lengths sum to 20 = res.0.len()",
-     [r"^Ne\(OctetString::len\(.*\), 20\) -> 0$"]),
+     [r"^20 == OctetString::len\("]),
     (r"^crypto::keys::PublicKey::(bits|key_identifier)$", r"call:unwrap",
      "bcder's BitString::octet_slice always returns Some (bit strings are stored contiguously); a SHA-1 digest is 20 octets"),
     (r"^repository::aspa::ProviderAsSet::take_from$|^repository::manifest::ManifestContent::take_from$", r"assert:Overflow:Add",
@@ -99,20 +99,20 @@ REASONS = [
     (r"^repository::resources::asres::AsBlocks::parse_cons_content$|^repository::resources::ipres::IpBlocks::parse_cons_content$", r"fnref:unwrap",
      "Option::unwrap is mapped over the items that passed take_while(is_some)"),
     (r"^repository::resources::chain::Chain::<T>::difference$", r"call:unwrap",
-     "self is non-empty (is_empty early return)", [r"^slice::is_empty\(self\) -> 0$"], r"^Option::map\(Iterator::next"),
+     "self is non-empty (is_empty early return)", [r"^!slice::is_empty\(self\)$"], r"^Option::map\(Iterator::next"),
     (r"^repository::resources::chain::Chain::<T>::difference$", r"call:unwrap",
      "previous(other.min) is taken on the branch where self.min < other.min, so other.min > 0",
-     [r"^discr\(Ord::cmp\(\$\.0, Block::min\(\$↓Some\.0\)\)\) -> 255$"], r"^Block::previous"),
+     [r"^cmp\(\$\.0, Block::min\(\$↓Some\.0\)\) in \{Less\}$"], r"^Block::previous"),
     (r"^repository::resources::chain::Chain::<T>::difference$", r"call:unwrap",
      "next(other.max) is taken on a branch where a value above other.max was just observed (self.max > other.max, or self.min > other.max)",
-     [r"^discr\(Ord::cmp\(\$\.[01], Block::(max|min)\(\$↓Some\.0\)\)\) -> 1$"], r"^Block::next"),
+     [r"^cmp\(\$\.[01], Block::(max|min)\(\$↓Some\.0\)\) in \{Greater\}$"], r"^Block::next"),
     (r"^repository::resources::chain::Chain::<T>::is_encompassed$", r"call:unwrap",
      "`other` is non-empty on entry (early return) and the loop returns before it would become empty",
-     [r"^slice::is_empty\(\$\) -> 0$"]),
+     [r"^!slice::is_empty\(\$\)$"]),
     (r"^repository::resources::chain::Chain::<T>::trim$", r".",
      "both chains are non-empty after the two early returns; idx counts consumed items of self (<= len); next(max) is taken only "
      "when self_item.1 > other_item.max(); `res` is Err whenever the unreachable!() arm is entered (set two statements earlier)",
-     [r"^slice::is_empty\(%2\.0\) -> 0$", r"^slice::is_empty\(self\.0\) -> 0$"]),
+     [r"^!slice::is_empty\(%2\.0\)$", r"^!slice::is_empty\(self\.0\)$"]),
     (r"^repository::resources::chain::from_iter_unsorted$", r".",
      "res is non-empty on entry (called only after a block was pushed); head ranges over 1..res.len() and tail < head"),
     (r"^repository::resources::ipres::(AddressRange|Prefix)::from(_v4|_v6)?_str_sep$", r"assert:Overflow:Add",
@@ -122,7 +122,7 @@ REASONS = [
      "leading/trailing bit counts are <= the width; max_allowed >= 1 when decremented (it exceeds trailing_ones >= 0); the emitted "
      "prefix lies inside start..=end, the loop breaks when it reaches end, so start + 2^same_bits <= end and same_bits < width "
      "whenever the shift executes; prefix_len = width - same_bits <= width",
-     [r"^Gt\(\$, .*Addr::to_bits\(self\.max\).* -> 0$"]),
+     [r"^\$ <= .*Addr::to_bits\(self\.max\)"]),
     (r"^repository::resources::ipres::Prefix::new$", r"call:panic",
      "documented precondition (len <= 128), established at every caller: see the precondition:Prefix::new@... obligations"),
     (r"^repository::sigobj::SignedAttrs::encode_verify$", r"call:panic",
@@ -130,7 +130,7 @@ REASONS = [
      "of this re-encoder (C02 R-REG encode_verify)"),
     (r"^repository::tal::Tal::read$", r"call:expect", "documented precondition on the caller-supplied path (not on the file's bytes)"),
     (r"^repository::tal::Tal::take_uri$", r"call:unwrap", "guarded by line.ends_with(b\"\\r\"): the line is non-empty",
-     [r"^slice::ends_with\(\$, b'\\r'\) -> else$"]),
+     [r"^slice::ends_with\(\$, b'\\r'\)$"]),
     (r"^repository::x509::Serial::checked_(add|mul)_u8$", r".",
      "u16 arithmetic on u8 operands: 255*255 + 255 < 65536 and the carry (step >> 8) is at most 255"),
     (r"^repository::x509::Serial::div_assign_u8$", r".",
@@ -138,7 +138,7 @@ REASONS = [
     (r"^repository::x509::Serial::encode_dec$", r".",
      "a 20-octet unsigned number has at most 49 decimal digits, so len stays in 0..=49; a remainder of 10 is < 10"),
     (r"^repository::x509::Serial::from_slice$", r".", "s.len() is in 1..=20 after the two early returns, so res[20-len..] has exactly s.len() octets",
-     [r"^slice::is_empty\(%1\) -> 0$", r"^Gt\(slice::len\(%1\), 20\) -> 0$"]),
+     [r"^!slice::is_empty\(%1\)$", r"^slice::len\(%1\) <= 20$"]),
     (r"^repository::x509::Serial::start$", r".",
      "find_map yields an index < 20 (default 19); start - 1 is taken only when the octet's top bit is set, which the type invariant "
      "excludes for index 0 (R-WHO x509::Serial:writers)"),
@@ -146,13 +146,13 @@ REASONS = [
      [("repository::x509::read_two_char", r"is_ascii_digit|Le\(48,|Ge\(.*, 48\)")]),
     (r"^rrdp::Hash::from_data$", r"call:unwrap", "a SHA-256 digest is 32 octets"),
     (r"^rrdp::NotificationFile::sort_and_verify_deltas$", r"assert:Overflow:Sub|call:drain",
-     "offset = len - limit is computed on the branch limit < len, so it is in 1..=len", [r"^Lt\(%2↓Some\.0, Vec::len\(self\.deltas↓Ok\.0\)\) -> else$"]),
+     "offset = len - limit is computed on the branch limit < len, so it is in 1..=len", [r"^%2↓Some\.0 < Vec::len\(self\.deltas↓Ok\.0\)$"]),
     (r"^rrdp::NotificationFile::sort_and_verify_deltas$", r"call:index",
      "the list is non-empty here: it was non-empty on entry and, after the optional drain, the function returns early when "
-     "nothing was retained", [r"2×^Vec::is_empty\(self\.deltas↓Ok\.0\) -> 0$"]),
+     "nothing was retained", [r"2×^!Vec::is_empty\(self\.deltas↓Ok\.0\)$"]),
     (r"^rrdp::ProcessDelta::process$", r"call:unwrap",
      "action is set by the element closure before it can return Ok; the unwrap is reached only when take_opt_element returned Some",
-     [r"^discr\(Try::branch\(Content::take_opt_element_with_limit\(.* -> 1$"]),
+     [r"^discr\(Try::branch\(Content::take_opt_element_with_limit\(.*↓Continue\.0\) in \{1\}$"]),
     (r"^rtr::pdu::Error::new$", r".",
      "documented precondition of the constructor (the PDU length must fit u32); every in-crate caller passes a PDU header or the "
      "fixed part of a payload PDU (at most 32 octets) and a literal message"),
@@ -169,7 +169,7 @@ REASONS = [
     (r"^<util::base64::SkipWhitespace<'_> as std::io::Read>::read$", r".",
      "the copy into buf[..current_len] happens on the branch current_len < buf_len, split_at(buf_len) on the other branch "
      "(buf_len <= current_len); res sums lengths of pieces of one input string",
-     [r"^Lt\(slice::len\(self\.current\), slice::len\(%2\)\) -> (0|else)$"]),
+     [r"^slice::len\(self\.current\) < slice::len\(%2\)$|^slice::len\(%2\) <= slice::len\(self\.current\)$"]),
     (r"^rtr::pdu::RouterKey::max_key_info_size$", r".", "constant expression: u32::MAX - size_of::<RouterKeyFixed>() (a 12-byte struct)"),
     (r"^xml::encode::TextEscape::write_escaped$", r".", "idx comes from enumerate() over the same slice, so idx < s.len()"),
 ]
